@@ -168,13 +168,13 @@ def run_values(pid, tier, seed):
 
 
 def run_values_plus(pid, tier, seed):
-    """C16 adds reader histories (value-tree ownership); C17 adds decoded trees through the slice/map helpers."""
+    """C16 adds reader histories (value-tree ownership) and Buffer histories (results independent of the scratch buffer's past); C17 adds decoded trees through the slice/map helpers."""
     res = run_values(pid, tier, seed)
     if "hang" in res:
         return res
     vh = vlib.build_harness()
     if pid == "C16":
-        g = vlib.run_gen(vh, "hist", tier, seed, only="rdr")
+        g = vlib.run_gen(vh, "hist", tier, seed, only="rdr,buf")
         tm = ("TraceHist.tla", "TraceHist.cfg")
     else:
         g = vlib.run_gen(vh, "trees", tier, seed, only="shapes,random,corpus")
@@ -518,7 +518,7 @@ CHECKS.update({
     "C16": {"family": "values_plus", "level": "exploration",
             "rule": "every event of the values family carries an input-unchanged bit (private copy compared after the calls); string "
                     "readers and UnescapeStringContent and StdLibCompatibleStringBytes with prefixed destinations over growth-boundary "
-                    "slack; dirty and tiny scratch buffers; results re-read after the harness overwrites input and scratch",
+                    "slack; dirty, tiny, nil-slice, empty and roomy scratch buffers; results re-read after the harness overwrites input and scratch (as updated by the call); reader histories (returned trees re-serialised later) and Buffer histories (outcome with a used Buffer = outcome with none)",
             "technique": "TLA+ append/ownership clauses (dst o Produce(in)); recorded results before and after overwrites validated by TLC (R3)",
             "level_text": "Memory ownership cannot be enumerated; the clauses (input unchanged, result = destination prefix followed by "
                           "the specified bytes, result unchanged after later overwrites) are evaluated by TLC on every recorded call.",
